@@ -637,6 +637,11 @@ class ScfRestart:
     bit and continues the minimisation identically (multi-k-point with ragged basis sizes, smearing, GGA)."""
 
     def case(self, fmt):
+        problems = self.case_one(fmt, False)
+        problems.update({f"Gamma-only, restricted, LDA: {k}": v for k, v in self.case_one(fmt, True).items()})
+        return problems
+
+    def case_one(self, fmt, gamma_only):
         import dataclasses
         import os
         import tempfile
@@ -648,11 +653,14 @@ class ScfRestart:
         eminus.config.backend = "numpy"
         eminus.config.verbose = "critical"
         at = Atoms(["Li", "H"], [[0.2, 0.1, 0.3], [0.4, 0.2, 3.1]], ecut=3, a=[[6.0, 0.3, 0.1], [0.2, 6.5, 0.4], [0.5, 0.1, 7.0]], unrestricted=True)
-        at.kpts.kmesh = [2, 1, 1]
-        at.kpts.kshift = [0.1, 0.0, 0.05]
-        at.occ.smearing = 0.01
-        at.occ.bands = 3
-        scf = SCF(at, xc="pbe", opt={"pccg": 3}, etol=1e-14)
+        if gamma_only:
+            at = Atoms(["Li", "H"], [[0.2, 0.1, 0.3], [0.4, 0.2, 3.1]], ecut=3, a=[[6.0, 0.3, 0.1], [0.2, 6.5, 0.4], [0.5, 0.1, 7.0]])
+        else:
+            at.kpts.kmesh = [2, 1, 1]
+            at.kpts.kshift = [0.1, 0.0, 0.05]
+            at.occ.smearing = 0.01
+            at.occ.bands = 3
+        scf = SCF(at, xc="lda,vwn" if gamma_only else "pbe", opt={"pccg": 3}, etol=1e-14)
         scf.run()
         with tempfile.TemporaryDirectory() as d:
             fn = os.path.join(d, "scf." + fmt)
@@ -695,7 +703,7 @@ class ScfRestart:
                               detail=f"{fmt}: the restored SCF object differs from the stored one: {problems}")
         from pycv.framework import BOUNDED_OK
 
-        return Result(BOUNDED_OK, backend="native", detail=f"bounded: LiH, 2 shifted k-points (ragged bases), smearing, PBE, unrestricted: {', '.join(fmts)} restore energies, coefficients and fillings bit for bit and the continued run is identical")
+        return Result(BOUNDED_OK, backend="native", detail=f"bounded: LiH, 2 shifted k-points (ragged bases), smearing, PBE, unrestricted; and Gamma-only restricted LDA (lists of one array): {', '.join(fmts)} restore energies, coefficients and fillings bit for bit and the continued run is identical")
 
     def replay(self, wit):
         try:
